@@ -701,6 +701,7 @@ struct World
 		if (thrown && !exception_escaped) fail("lifecycle.throw.swallowed", "an exception thrown by a user handler did not propagate out of run()");
 		running = false;
 		if (!exception_escaped && !stopped_by_cap) final_checks();
+		if (!exception_escaped && !stopped_by_cap && !c04 && iv_kind != I_THROW && error_class.empty()) probe_acceptor();
 		teardown();
 	}
 
@@ -733,6 +734,37 @@ struct World
 		if (by_corrupt) fail("bystander.corrupt", "an unrelated connection in the same simulation received altered data");
 		if (by_received != int64_t(by_wbuf.size())) fail("bystander.stalled", "an unrelated connection in the same simulation did not complete its transfer (" + std::to_string(by_received) + " of " + std::to_string(by_wbuf.size()) + ")");
 		if (by_timer_fired != 77000000) fail("bystander.timer", "an unrelated timer did not fire at its expiry");
+	}
+
+	// "every other object keeps behaving": whatever was done to sockets, a listening acceptor that was left alone still
+	// takes connections. Run after the verdicts on the scenario's own handlers (the probe's accepts supersede a pending one).
+	void probe_acceptor()
+	{
+		if (!acceptor || !acceptor->is_open()) return;
+		if (iv_obj.kind == O_ACCEPTOR && iv_kind != I_NONE && iv_kind != I_THROW) return; // the acceptor itself was the target
+		bool listening = false;
+		for (auto const& o : plan.ops) if (o.op == "listen") listening = true;
+		if (!listening) return;
+		running = false; // handlers of the scenario that are aborted from here on are not the scenario's business
+		tcp::socket probe(*nodeA);
+		bool done = false;
+		error_code pec;
+		probe.async_connect(tcp::endpoint(addrB, 7000), [&](error_code const& ec) { done = true; pec = ec; });
+		std::vector<std::unique_ptr<tcp::socket>> taken;
+		for (int round = 0; round < 12 && !done; ++round)
+		{
+			taken.emplace_back(new tcp::socket(*nodeB));
+			acceptor->async_accept(*taken.back(), [](error_code const&) {});
+			sim->run();
+			if (sim->stopped()) sim->restart();
+		}
+		if (!done) fail("bystander.acceptor_unreachable", "a connect to the scenario's listening acceptor, which was left alone, never completed");
+		else if (pec) fail("bystander.acceptor_unreachable", "a connect to the scenario's listening acceptor, which was left alone, failed with '" + pec.message() + "'");
+		error_code ec;
+		acceptor->cancel(ec);
+		probe.close(ec);
+		for (auto& t : taken) t->close(ec);
+		sim->run();
 	}
 
 	void teardown()
